@@ -328,7 +328,50 @@ func (h *spyHandle) GetBalance(cache *storage.CacheDB, addr common.Address) (*bi
 	return h.inner.GetBalance(cache, addr)
 }
 
+// eff is one node of the effect tree of an interpreter invocation (Model/EvmFrames.v).
+type eff struct {
+	sd    bool // SELFDESTRUCT with beneficiary to
+	dummy bool
+	kind  string
+	to    common.Address
+	value *big.Int
+	ok    bool
+	body  []*eff
+}
+
+func (w *world) coqEffects(l []*eff) string {
+	var items []string
+	for _, e := range l {
+		items = append(items, w.coqEffect(e))
+	}
+	return hx.CoqList(items)
+}
+
+func (w *world) coqEffect(e *eff) string {
+	if e.sd {
+		return fmt.Sprintf("(ESelfDestruct %d)", w.id(e.to))
+	}
+	return fmt.Sprintf("(EFrame %s %d %s %s %s)", e.kind, w.id(e.to), e.value.String(), hx.CoqBool(e.ok), w.coqEffects(e.body))
+}
+
+func effAddrs(e *eff, out map[common.Address]bool) {
+	out[e.to] = true
+	for _, b := range e.body {
+		effAddrs(b, out)
+	}
+}
+
+func effSize(e *eff) int {
+	n := 1
+	for _, b := range e.body {
+		n += effSize(b)
+	}
+	return n
+}
+
 type spyTracer struct {
+	top      *eff
+	stack    []*eff
 	w        *world
 	cache    *storage.CacheDB
 	statedb  *storage.StateDB
@@ -348,6 +391,12 @@ type spyTracer struct {
 func (t *spyTracer) CaptureStart(env *evm.EVM, from, to ethcomm.Address, create bool, input []byte, gas uint64, value *big.Int) {
 	t.started, t.create, t.gasIn = true, create, gas
 	t.w.know(common.Address(to))
+	kind := "KCall"
+	if create {
+		kind = "KCreate"
+	}
+	t.top = &eff{kind: kind, to: common.Address(to), value: new(big.Int).Set(value)}
+	t.stack = []*eff{t.top}
 }
 func (t *spyTracer) CaptureState(env *evm.EVM, pc uint64, op evm.OpCode, gas, cost uint64, memory *evm.Memory, stack *evm.Stack,
 	rStack *evm.ReturnStack, rData []byte, contract *evm.Contract, depth int, err error) {
@@ -366,13 +415,53 @@ func (t *spyTracer) CaptureState(env *evm.EVM, pc uint64, op evm.OpCode, gas, co
 }
 func (t *spyTracer) CaptureEnter(typ evm.OpCode, from, to ethcomm.Address, input []byte, gas uint64, value *big.Int) {
 	t.w.know(common.Address(to))
+	if len(t.stack) == 0 {
+		return
+	}
+	cur := t.stack[len(t.stack)-1]
+	v := new(big.Int)
+	if value != nil {
+		v.Set(value)
+	}
+	var f *eff
+	switch typ {
+	case evm.SELFDESTRUCT: // opSuicide reports itself as a frame: from = executing contract, to = beneficiary
+		cur.body = append(cur.body, &eff{sd: true, to: common.Address(to)})
+		f = &eff{dummy: true}
+	case evm.CALL:
+		f = &eff{kind: "KCall", to: common.Address(to), value: v}
+	case evm.CALLCODE:
+		f = &eff{kind: "KCallCode", to: common.Address(to), value: v}
+	case evm.DELEGATECALL:
+		f = &eff{kind: "KDelegateCall", to: common.Address(to), value: v}
+	case evm.STATICCALL:
+		f = &eff{kind: "KStaticCall", to: common.Address(to), value: v}
+	case evm.CREATE, evm.CREATE2:
+		f = &eff{kind: "KCreate", to: common.Address(to), value: v}
+	default:
+		f = &eff{dummy: true}
+	}
+	if !f.dummy {
+		cur.body = append(cur.body, f)
+	}
+	t.stack = append(t.stack, f)
 }
-func (t *spyTracer) CaptureExit(output []byte, gasUsed uint64, err error) {}
+func (t *spyTracer) CaptureExit(output []byte, gasUsed uint64, err error) {
+	if len(t.stack) <= 1 {
+		return
+	}
+	f := t.stack[len(t.stack)-1]
+	t.stack = t.stack[:len(t.stack)-1]
+	f.ok = err == nil
+}
 func (t *spyTracer) CaptureFault(env *evm.EVM, pc uint64, op evm.OpCode, gas, cost uint64, memory *evm.Memory, stack *evm.Stack,
 	rStack *evm.ReturnStack, contract *evm.Contract, depth int, err error) {
 }
 func (t *spyTracer) CaptureEnd(output []byte, gasUsed uint64, d time.Duration, err error) {
 	t.ended = true
+	if t.top != nil {
+		t.top.ok = err == nil
+	}
 	t.gasLeft = t.gasIn - gasUsed
 	t.err = err
 	t.refund = t.statedb.GetRefund()
